@@ -27,6 +27,9 @@ type parseContext struct {
 	caseInsensitive   map[lexer.TokenType]bool
 	apply             []*contextFieldSet
 	allowTrailing     bool
+	// Raw cursor of the first token matched since the innermost enclosing capture started,
+	// or -1 if nothing has been matched yet. Elided tokens that were merely skipped don't count.
+	matchStart lexer.RawCursor
 }
 
 func newParseContext(lex *lexer.PeekingLexer, lookahead int, caseInsensitive map[lexer.TokenType]bool) parseContext {
@@ -34,6 +37,14 @@ func newParseContext(lex *lexer.PeekingLexer, lookahead int, caseInsensitive map
 		PeekingLexer:    *lex,
 		caseInsensitive: caseInsensitive,
 		lookahead:       lookahead,
+		matchStart:      -1,
+	}
+}
+
+// noteMatch records that the token at rawCursor was matched (as opposed to skipped).
+func (p *parseContext) noteMatch(rawCursor lexer.RawCursor) {
+	if p.matchStart < 0 {
+		p.matchStart = rawCursor
 	}
 }
 
@@ -67,6 +78,7 @@ func (p *parseContext) Apply() error {
 func (p *parseContext) Accept(branch *parseContext) {
 	p.apply = append(p.apply, branch.apply...)
 	p.PeekingLexer = branch.PeekingLexer
+	p.matchStart = branch.matchStart
 	if branch.deepestErrorDepth >= p.deepestErrorDepth {
 		p.deepestErrorDepth = branch.deepestErrorDepth
 		p.deepestError = branch.deepestError
